@@ -467,6 +467,14 @@ def unwrapAggFn {V} (N : NumOps V) (durNs : Int) : UnwrapFn → AggFn V
   | .lastOverTime => ⟨fun _ e => (e.val, 1), fun c => c.1⟩
   | .other => ⟨fun c _ => c, fun c => c.1⟩
 
+/-- `first_over_time` / `last_over_time` read `ctx.OrderASC`: the entries arrive ordered by timestamp in the direction of
+    the request, so when it is descending the earliest entry of a bucket is the one that arrives last — the first
+    function then overwrites on every entry (the step of `lastOverTime`), the last one keeps the first arrival -/
+def dirFn (asc : Bool) : UnwrapFn → UnwrapFn
+  | .firstOverTime => if asc then .firstOverTime else .lastOverTime
+  | .lastOverTime => if asc then .lastOverTime else .firstOverTime
+  | fn => fn
+
 def vecFn {V} (N : NumOps V) : VecFn → AggFn V
   | .sum => ⟨fun c e => (N.add c.1 e.val, 1), fun c => c.1⟩
   | .min => ⟨fun c e => if N.lt e.val c.1 || c.2 == 0 then (e.val, 1) else c, fun c => c.1⟩
@@ -556,6 +564,7 @@ structure Ctx where
   limit : Int
   flushAt : Nat            -- 3000 in planner_fingerprint_optimizer.go
   maxSeries : Nat          -- 2000 in planner_generic_aggregator.go
+  orderAsc : Bool          -- `ctx.OrderASC` (direction=forward): the order in which the ClickHouse part sorts its rows
 
 abbrev Batches (V : Type) := List (List (Entry V))
 
@@ -592,7 +601,7 @@ def runPlan {V} (E : Env V) (c : Ctx) (p : Plan V) (bs : Batches V) : Batches V 
     let g := Grid.of c.fromNs c.toNs dur
     let a := match k with
       | .range fn => run E.num (aggOps E.num c.maxSeries g (lraFn E.num dur fn)) [] s
-      | .unwrap fn => run E.num (aggOps E.num c.maxSeries g (unwrapAggFn E.num dur fn)) [] (runByWithout E p.aggBy s)
+      | .unwrap fn => run E.num (aggOps E.num c.maxSeries g (unwrapAggFn E.num dur (dirFn c.orderAsc fn))) [] (runByWithout E p.aggBy s)
     let a := runCmp E p.aggCmp a
     match p.vec with
     | none => a
